@@ -1276,7 +1276,12 @@ def valid_desc(schema: dict, sel: int):
 def mutated_desc(schema: dict, how: int, sel: int):
     """A description that may violate one keyword of the property schema."""
     t = schema.get("type")
-    options = [{"form": "class", "cls": VALUE_CLASSES[sel % len(VALUE_CLASSES)]}]
+    classes = VALUE_CLASSES
+    if "format" in schema:
+        # a string under a 'format' keyword is only generated well-formed (see ASSUMPTIONS: fastjsonschema checks
+        # 'uri', the reference validator does not by default), also on the mutation path
+        classes = [c for c in VALUE_CLASSES if c != "str"]
+    options = [{"form": "class", "cls": classes[sel % len(classes)]}]
     if t == "array":
         lo, hi = schema.get("minItems"), schema.get("maxItems")
         if lo:
